@@ -163,6 +163,25 @@ class Gen:
     # --- numbers, expressions
     def number(self, allow_neg=True):
         r = self.r
+        if self.chance(0.06):
+            # wide literals: 17-28 significant digits (rust_decimal holds 96 bits, i.e. every 28-digit number), and the
+            # machine-integer boundaries, with the decimal point anywhere and sometimes grouped
+            self.feat("num-wide")
+            if self.chance(0.35):
+                body = r.choice(["9223372036854775807", "9223372036854775808", "18446744073709551615", "18446744073709551616",
+                                 "79228162514264337593543950335", "170141183460469231731687303715"[:28]])
+            else:
+                body = r.choice("123456789") + "".join(r.choice("0123456789") for _ in range(r.randint(16, 27)))
+            nfrac = r.choice([0, 0, 1, 2, 8, 18, len(body) - 1])
+            nfrac = min(nfrac, len(body) - 1)
+            ip, fp = (body[:len(body) - nfrac], body[len(body) - nfrac:]) if nfrac else (body, "")
+            if self.chance(0.3) and len(ip) > 3:
+                h = len(ip) % 3 or 3
+                ip = ip[:h] + "".join("," + ip[i:i + 3] for i in range(h, len(ip), 3))
+            digits = ip + ("." + fp if fp else "")
+            if allow_neg and self.chance(0.25):
+                digits = "-" + digits
+            return digits
         k = r.random()
         if k < 0.55:
             digits = "".join(r.choice("0123456789") for _ in range(r.randint(1, 4)))
